@@ -51,7 +51,21 @@ type server struct {
 	log  *bytes.Buffer
 }
 
+// start launches the server; a listener that loses the race for a port picked by freePort (other processes on the
+// machine bind ephemeral ports all the time) is not the server's fault: such a start is retried with fresh ports
 func start(bin, db string) (*server, error) {
+	var s *server
+	var err error
+	for attempt := 0; attempt < 6; attempt++ {
+		s, err = startOnce(bin, db)
+		if err == nil || !strings.Contains(err.Error(), "address already in use") {
+			return s, err
+		}
+	}
+	return s, err
+}
+
+func startOnce(bin, db string) (*server, error) {
 	hp, gp, pp, mp := freePort(), freePort(), freePort(), freePort()
 	cmd := exec.Command(bin, "serve",
 		"--aio-store-sqlite-path", db,
@@ -80,11 +94,15 @@ func start(bin, db string) (*server, error) {
 	}
 	_ = cmd.Process.Kill()
 	_, _ = cmd.Process.Wait()
-	tail := buf.String()
-	if len(tail) > 1500 {
-		tail = tail[len(tail)-1500:]
+	logText := buf.String()
+	head, tail := logText, ""
+	if len(head) > 600 {
+		head = head[:600]
 	}
-	return nil, fmt.Errorf("server did not become ready: %s", tail)
+	if len(logText) > 1200 {
+		tail = " ... " + logText[len(logText)-600:]
+	}
+	return nil, fmt.Errorf("server did not become ready: %s%s", head, tail)
 }
 
 func (s *server) kill(sig syscall.Signal) {
